@@ -25,6 +25,6 @@ m = {"version": 1,
      "engines": [{"name": "symv", "path": "symv/", "serves_properties": sorted(CHECKS), "kind_free_text": "path-forking symbolic executor for Python/numpy on z3 (E1) + regular-language queries on the real compiled patterns (E2)"}],
      "checks": [CHECKS[p] for p in props if p in CHECKS],
      "not_applicable": [{"property_id": p, "reason": tbl.NOT_APPLICABLE.get(p, "check not built yet (work in progress; DESIGN.md section 5 has the plan)")} for p in props if p not in CHECKS],
-     "notes": "exit codes of ./vcheck: 0 all obligations discharged on every feasible path within the bounds; 1 reproduced violation (VIOLATION line); 2 inconclusive (solver unknown / cap); 3 harness error. See DESIGN.md."}
+     "notes": "exit codes of ./vcheck: 0 all obligations discharged on every feasible path within the bounds (known findings excepted: KNOWN-FINDING lines); 1 reproduced violation (VIOLATION line); 2 inconclusive (solver unknown / cap); 3 harness error. Known findings and the list of fixed: entries are in known_findings.json (never written at run time). Seeded changes and the detection matrix: seeded/ and DESIGN.md section 13. See DESIGN.md."}
 json.dump(m, open(os.path.join(os.path.dirname(__file__), "MANIFEST.json"), "w"), indent=1)
 print("checks:", sorted(CHECKS))
